@@ -487,6 +487,24 @@ def expected_decl(expected):
     return out
 
 
+def decl_leaves(decl):
+    """(id, type, shape) of every base variable of a declaration (expected_decl / parse_dds), in wire order"""
+    out = []
+
+    def members(ms):
+        for m in ms:
+            if m[0] == "st":
+                members(m[2])
+            else:
+                out.append(tuple(m))
+    for e in decl:
+        if e[0] == "b":
+            out.append(tuple(e[1:]))
+        else:
+            members(e[2])
+    return out
+
+
 def expected_values(expected):
     out = []
     for e in expected:
